@@ -3,6 +3,7 @@ its contract, use of callee contracts at call sites, loop contracts, lemmas."""
 from __future__ import annotations
 
 import ast
+import re
 import os
 
 import z3
@@ -75,14 +76,40 @@ class Contract:
         self.emits = kw.get("emits", {})        # ghost events appended at call sites: name -> expr
         self.use = kw.get("use", {})            # callee qualname -> name of the contract variant to use at call sites of this function
         self.scenario = kw.get("scenario", {})  # callee qualname -> clause assumed on its normal return (hypothesis about the environment)
+        # program locals the clauses mention -> the role that identifies them if they get renamed:
+        # "loopK.target" | "returned" | "assigned_from:<piece of the right-hand side>"
+        self.local_roles = kw.get("local_roles", {})
+        self.rename = {}
+        self.loops_eff = None
+        self._renamed_for = None
         self._exprs = {}
 
     def expr(self, src):
         e = self._exprs.get(src)
         if e is None:
             e = ast.parse(src.strip(), mode="eval").body
+            if self.rename:
+                e = _Renamer(self.rename).visit(e)
+                ast.fix_missing_locations(e)
             self._exprs[src] = e
         return e
+
+
+class _Renamer(ast.NodeTransformer):
+    def __init__(self, m):
+        self.m = m
+
+    def visit_Name(self, node):
+        if node.id in self.m:
+            return ast.copy_location(ast.Name(id=self.m[node.id], ctx=node.ctx), node)
+        return node
+
+    def visit_Call(self, node):
+        self.generic_visit(node)
+        if isinstance(node.func, ast.Name) and node.func.id == "final" and node.args and isinstance(node.args[0], ast.Constant) \
+                and node.args[0].value in self.m:
+            node.args[0] = ast.copy_location(ast.Constant(self.m[node.args[0].value]), node.args[0])
+        return node
 
 
 class VPoison(V):
@@ -473,7 +500,106 @@ class ContractSet:
         for i, s in enumerate(order):
             s._pyvc_ord = i
             s._pyvc_all = order
+            s._pyvc_fn = fnode
         return order
+
+    def merged_loops(self, c):
+        loops = {}
+        if "#" in c.target:
+            base = self.contracts.get(c.target.split("#")[0])
+            if base is not None:
+                loops.update(base.loops)
+        loops.update(c.loops)
+        return loops
+
+    def ensure_roles(self, c, fnode):
+        """a program local that the clauses name but that no longer exists in the function is re-identified by its declared role
+        (renamed locals must not make a function undecided); an unresolvable role is reported as outside the subset"""
+        if c._renamed_for is fnode:
+            return
+        c._renamed_for = fnode
+        roles = {}
+        if "#" in c.target:
+            base = self.contracts.get(c.target.split("#")[0])
+            if base is not None:
+                roles.update(base.local_roles)
+        roles.update(c.local_roles)
+        loops = self.merged_loops(c)
+        c.rename = {}
+        c.loops_eff = loops
+        c._exprs = {}
+        if not roles or isinstance(fnode, ast.Lambda):
+            return
+        a = fnode.args
+        own = {p.arg for p in a.posonlyargs + a.args + a.kwonlyargs} | self.assigned_names(fnode.body)
+        for s_ in ast.walk(fnode):
+            if isinstance(s_, (ast.For, ast.AsyncFor)):
+                own |= {n.id for n in ast.walk(s_.target) if isinstance(n, ast.Name)}
+        missing = {n: r for n, r in roles.items() if n not in own}
+        if not missing:
+            return
+        order = self.number_loops(fnode)
+
+        def renamed_loops():
+            ren = {}
+            for k, lc in loops.items():
+                lc2 = dict(lc)
+                for sec in ("define", "havoc"):
+                    if sec in lc:
+                        lc2[sec] = {c.rename.get(n, n): v for n, v in lc[sec].items()}
+                if lc.get("match"):
+                    for old_, new_ in c.rename.items():
+                        lc2["match"] = re.sub(r"\b%s\b" % re.escape(old_), new_, lc2["match"])
+                ren[k] = lc2
+            return ren
+        # locals identified by the statement that defines them first (loop keys may mention them), loop targets second
+        for phase in (0, 1):
+            for name, role in missing.items():
+                if (role.startswith("loop")) != (phase == 1):
+                    continue
+                new = self.resolve_role(c, fnode, order, renamed_loops(), role)
+                if new is None or new in roles and new not in missing:
+                    raise Unsupported(f"{c.target}: the clauses name the local `{name}`, which the function no longer has, and its role "
+                                      f"`{role}` does not identify one replacement (the contract must be re-attached)")
+                c.rename[name] = new
+        c.loops_eff = renamed_loops()
+
+    def resolve_role(self, c, fnode, order, loops, role):
+        if role == "returned":
+            names = set()
+            stack = list(fnode.body)
+            while stack:
+                s_ = stack.pop()
+                if isinstance(s_, (ast.FunctionDef, ast.AsyncFunctionDef, ast.Lambda, ast.ClassDef)):
+                    continue
+                if isinstance(s_, ast.Return):
+                    if not isinstance(s_.value, ast.Name):
+                        return None
+                    names.add(s_.value.id)
+                stack.extend(ast.iter_child_nodes(s_))
+            return names.pop() if len(names) == 1 else None
+        if role.startswith("loop") and role.endswith(".target"):
+            k = int(role[4:-7])
+            if not all(l.get("match") for l in loops.values()):
+                node = order[k] if k < len(order) else None
+            else:
+                amap = self.align_loops(c, loops, order)
+                inv = {ck: i for i, ck in amap.items()}
+                node = order[inv[k]] if k in inv else None
+            if node is None or not isinstance(node, (ast.For, ast.AsyncFor)) or not isinstance(node.target, ast.Name):
+                return None
+            return node.target.id
+        if role.startswith("assigned_from:"):
+            piece = role.split(":", 1)[1]
+            names = []
+            for s_ in ast.walk(fnode):
+                if isinstance(s_, ast.Assign) and len(s_.targets) == 1 and isinstance(s_.targets[0], ast.Name) and piece in ast.unparse(s_.value):
+                    if s_.targets[0].id not in names:
+                        names.append(s_.targets[0].id)
+                elif isinstance(s_, ast.NamedExpr) and piece in ast.unparse(s_.value) and s_.target.id not in names:
+                    names.append(s_.target.id)
+            return names[0] if len(names) == 1 else None
+        raise Unsupported(f"unknown local role {role}")
 
     def setup_inputs(self, I, c: Contract):
         loc = {}
@@ -516,6 +642,7 @@ class ContractSet:
             return
         fv = self.resolve_target(I, c)
         self.number_loops(fv.node)
+        self.ensure_roles(c, fv.node)
         args = []
         a = fv.node.args
         names = [p.arg for p in a.posonlyargs + a.args]
@@ -842,12 +969,10 @@ class ContractSet:
             except Unsupported:
                 return None
             k = getattr(node, "_pyvc_ord", None)
-        loops = {}
-        if "#" in c.target:
-            base = self.contracts.get(c.target.split("#")[0])
-            if base is not None:
-                loops.update(base.loops)
-        loops.update(c.loops)
+        fn_ = getattr(node, "_pyvc_fn", None)
+        if fn_ is not None:
+            self.ensure_roles(c, fn_)
+        loops = c.loops_eff if c.loops_eff is not None else self.merged_loops(c)
         if not loops:
             return None
         order = getattr(node, "_pyvc_all", None)
@@ -882,6 +1007,9 @@ class ContractSet:
         ck = sorted(loops, key=lambda x: int(x))
         srcs = [self.loop_src(n) for n in order]
         n, m = len(srcs), len(ck)
+        if n == 1 and m == 1:
+            cache[key] = {0: ck[0]}     # one loop, one loop contract: the key is not needed to tell them apart
+            return cache[key]
         # best[i][j] = (size, count) of maximum order-preserving matchings of srcs[i:] with ck[j:]
         best = [[(0, 1)] * (m + 1) for _ in range(n + 1)]
         for i in range(n - 1, -1, -1):
